@@ -11,6 +11,7 @@ import (
 	"sync"
 	"sync/atomic"
 	"time"
+	"unicode/utf8"
 
 	"github.com/fullstorydev/grpchan"
 	"google.golang.org/grpc"
@@ -389,6 +390,9 @@ func (st *tunnelServerStream) setHeader(md metadata.MD, send bool) error {
 		return errors.New("already sent headers")
 	}
 	if md != nil {
+		if err := validateMetadata(md); err != nil {
+			return err
+		}
 		st.headers = metadata.Join(st.headers, md)
 	}
 	if send {
@@ -420,6 +424,25 @@ func fromProto(md *tunnelpb.Metadata) metadata.MD {
 	return vals
 }
 
+// validateMetadata returns an error if the given metadata cannot be carried
+// in a tunnel frame. Keys and values travel as protobuf strings, which must be
+// valid UTF-8: a frame with any other value cannot be marshalled, and a failed
+// send aborts the underlying stream and with it the whole tunnel. So such
+// metadata must be refused up front, failing only the RPC that supplied it.
+func validateMetadata(md metadata.MD) error {
+	for k, vals := range md {
+		if !utf8.ValidString(k) {
+			return status.Errorf(codes.Internal, "metadata key %q is not valid UTF-8 and cannot be sent over a tunnel", k)
+		}
+		for _, v := range vals {
+			if !utf8.ValidString(v) {
+				return status.Errorf(codes.Internal, "metadata value for key %q is not valid UTF-8 and cannot be sent over a tunnel", k)
+			}
+		}
+	}
+	return nil
+}
+
 func toProto(md metadata.MD) *tunnelpb.Metadata {
 	vals := map[string]*tunnelpb.Metadata_Values{}
 	for k, v := range md {
@@ -438,6 +461,9 @@ func (st *tunnelServerStream) setTrailer(md metadata.MD) error {
 
 	if st.closed {
 		return errors.New("already finished")
+	}
+	if err := validateMetadata(md); err != nil {
+		return err
 	}
 	st.trailers = metadata.Join(st.trailers, md)
 	return nil
